@@ -305,14 +305,14 @@ FINDINGS = {'KF-C08-SPLIT': f_split, 'KF-C08-SIGKINDS': f_sigkinds, 'KF-C08-NONK
 
 
 def run(ctx):
-    n = 24 if ctx.quick else 800
+    n = 20 if ctx.quick else 800
     ctx.run_hypothesis(cases('core'), check, max_examples=n, label='core')
     from .. import realscores as RS
     rc = RS.cases()
     if rc is not None:
         ctx.run_hypothesis(rc, check_real, max_examples=max(3, (24 if ctx.quick else 480) // ctx.nshards), salt=9, label='real-scores')
     for i, prof in enumerate(('sig-change', 'in-split', 'non-kern', 'early-end', 'projected', 'projected-in-split')):
-        ctx.run_hypothesis(cases(prof), check, max_examples=max(12, n // 3), salt=i + 1, label=prof)
+        ctx.run_hypothesis(cases(prof), check, max_examples=max(9, n // 3), salt=i + 1, label=prof)
 
 
 def replay(case):
